@@ -47,27 +47,37 @@ def replaceRange (s : Bytes) (a b : Nat) (r : Bytes) : Option Bytes :=
   if a ≤ b ∧ b ≤ s.length ∧ isCharBoundary s a = true ∧ isCharBoundary s b = true
   then some (s.take a ++ r ++ s.drop b) else none
 
-/-- one iteration of the loop body -/
-def step (orig : Bytes) (modified : Bytes) (e : Edit) : Except Err Bytes :=
+/-- one iteration of the loop body.  `checked = true` is the code as it is (repo commit 29e3f64:
+    `original_content.get(start..end)` / `modified.get(start..end)`, a miss is reported as a content mismatch);
+    `checked = false` is the code before it (unchecked slices: a miss panics). -/
+def stepG (checked : Bool) (orig : Bytes) (modified : Bytes) (e : Edit) : Except Err Bytes :=
   match sliceStr orig e.start e.stop with
-  | none => .error .panic
+  | none => .error (if checked then .mismatch else .panic)
   | some actual =>
     if actual ≠ e.before then .error .mismatch
     else match replaceRange modified e.start e.stop e.after with
-      | none => .error .panic
+      | none => .error (if checked then .mismatch else .panic)
       | some m => .ok m
 
 /-- the loop over an explicit (already reversed) list -/
-def run (orig : Bytes) : Bytes → List Edit → Except Err Bytes
+def runG (checked : Bool) (orig : Bytes) : Bytes → List Edit → Except Err Bytes
   | m, [] => .ok m
   | m, e :: es =>
-    match step orig m e with
+    match stepG checked orig m e with
     | .error x => .error x
-    | .ok m' => run orig m' es
+    | .ok m' => runG checked orig m' es
 
-/-- what `apply_content_edits_with_content` computes: edits are applied back to front -/
-def applyEdits (orig : Bytes) (es : List Edit) : Except Err Bytes :=
-  run orig orig es.reverse
+/-- edits are applied back to front -/
+def applyEditsG (checked : Bool) (orig : Bytes) (es : List Edit) : Except Err Bytes :=
+  runG checked orig orig es.reverse
+
+/-- the code as it is -/
+abbrev step := stepG true
+abbrev run := runG true
+/-- what `apply_content_edits_with_content` computes -/
+abbrev applyEdits := applyEditsG true
+/-- the code before repo commit 29e3f64 (stale offsets panic) -/
+abbrev applyEditsOld := applyEditsG false
 
 /-- Specification: copy the original left to right, substituting each match at its recorded position. -/
 def spec (c : Bytes) (off : Nat) : List Edit → Bytes
